@@ -416,8 +416,8 @@ class FileStore(Store):
 
     def _check_inside_root(self, key, path):
         """Refuse a key whose path ('..' components, absolute key) lies outside the store's root directory."""
-        root = os.path.normpath(str(self.path))
-        target = os.path.normpath(str(path))
+        root = os.path.abspath(str(self.path))
+        target = os.path.abspath(str(path))
         if target != root and not target.startswith(root.rstrip(os.sep) + os.sep):
             raise KeyNotSupportedStoreException(
                 f"Key points outside of the store directory", key=key, store=self
